@@ -383,9 +383,12 @@ int sm9_z256_from_hex(sm9_z256_t r, const char *hex)
 
 void sm9_z256_to_hex(const sm9_z256_t r, char hex[64])
 {
+	char buf[17];
 	int i;
+	// exactly 64 hex digits, no terminating NUL: hex[64] and the fp2/fp4/fp12 buffers have no room for one
 	for (i = 3; i >= 0; i--) {
-		(void)sprintf(hex + 16*(3-i), "%016llx", (unsigned long long)r[i]);
+		(void)snprintf(buf, sizeof(buf), "%016llx", (unsigned long long)r[i]);
+		memcpy(hex + 16*(3-i), buf, 16);
 	}
 }
 
@@ -1391,7 +1394,7 @@ int sm9_z256_fp12_from_bytes(sm9_z256_fp12_t r, const uint8_t buf[32 * 12])
 
 void sm9_z256_fp12_print(const char *prefix, const sm9_z256_fp12_t a)
 {
-	char hex[65 * 12];
+	char hex[65 * 12] = {0};
 	sm9_z256_fp12_to_hex(a, hex);
 	printf("%s\n%s\n", prefix, hex);
 }
